@@ -78,7 +78,7 @@ namespace mon
    template< template< typename... > class Action, typename = void > struct afam_of { static constexpr int v = 0; };
    template< template< typename... > class Action > struct afam_of< Action, std::void_t< decltype( Action< void >::family ) > > { static constexpr int v = Action< void >::family; };
 
-   enum rflags : unsigned { F_AFAM_B = 1024, F_ACT = 1, F_REQUIRED = 2, F_LOOKAHEAD = 4, F_MUSTLIKE = 8, F_ENABLED = 16, F_HAS_UNWIND = 32, F_ENABLE_RULE = 64, F_DISABLE_RULE = 128, F_CFAM_B = 256, F_TRY = 512 };
+   enum rflags : unsigned { F_MUSTIF = 2048, F_AFAM_B = 1024, F_ACT = 1, F_REQUIRED = 2, F_LOOKAHEAD = 4, F_MUSTLIKE = 8, F_ENABLED = 16, F_HAS_UNWIND = 32, F_ENABLE_RULE = 64, F_DISABLE_RULE = 128, F_CFAM_B = 256, F_TRY = 512 };
 
    void on_enter( std::string_view name, std::string_view rule_t_name, int vid, unsigned flags, const void* input, const snap& s, const char* in_end );
    void on_leave( const snap& s, int result ) noexcept;   // result: 1 true, 0 false, 2 exception
@@ -140,7 +140,7 @@ namespace mon
    template< int Kind, int Vid, int Fam > struct act_impl { static constexpr int family = Fam; };
 
    template< int Vid, int Fam >
-   struct act_impl< ref::A_APPLY, Vid, Fam >
+   struct act_impl< ref::A_APPLY, Vid, Fam > : pegtl::require_apply   // "must have a callable apply()": a debugging aid users put on their actions
    {
       static constexpr int family = Fam;
       template< typename AI, typename... S >
@@ -151,7 +151,7 @@ namespace mon
       }
    };
    template< int Vid, int Fam >
-   struct act_impl< ref::A_APPLY0, Vid, Fam >
+   struct act_impl< ref::A_APPLY0, Vid, Fam > : pegtl::require_apply0   // "must have a callable apply0()": a debugging aid users put on their actions
    {
       static constexpr int family = Fam;
       template< typename... S >
@@ -161,7 +161,7 @@ namespace mon
       }
    };
    template< int Vid, int Fam >
-   struct act_impl< ref::A_VETO, Vid, Fam >
+   struct act_impl< ref::A_VETO, Vid, Fam > : pegtl::require_apply   // "must have a callable apply()": a debugging aid users put on their actions
    {
       static constexpr int family = Fam;
       template< typename AI, typename... S >
@@ -172,7 +172,7 @@ namespace mon
       }
    };
    template< int Vid, int Fam >
-   struct act_impl< ref::A_VETO0, Vid, Fam >
+   struct act_impl< ref::A_VETO0, Vid, Fam > : pegtl::require_apply0   // "must have a callable apply0()": a debugging aid users put on their actions
    {
       static constexpr int family = Fam;
       template< typename... S >
@@ -182,7 +182,7 @@ namespace mon
       }
    };
    template< int Vid, int Fam >
-   struct act_impl< ref::A_THROW, Vid, Fam >
+   struct act_impl< ref::A_THROW, Vid, Fam > : pegtl::require_apply   // "must have a callable apply()": a debugging aid users put on their actions
    {
       static constexpr int family = Fam;
       template< typename AI, typename... S >
@@ -193,7 +193,7 @@ namespace mon
       }
    };
    template< int Vid, int Fam >
-   struct act_impl< ref::A_THROW_ALIEN, Vid, Fam >
+   struct act_impl< ref::A_THROW_ALIEN, Vid, Fam > : pegtl::require_apply   // "must have a callable apply()": a debugging aid users put on their actions
    {
       static constexpr int family = Fam;
       template< typename AI, typename... S >
@@ -250,21 +250,26 @@ namespace mon
       ~leave_guard() { on_leave( f( in ), result ); }
    };
 
-   // CFam: control family (0 = A, 1 = B); EnableAll: hooks for internal rules too; WithUnwind: defines unwind()
-   template< typename Rule, int CFam, bool EnableAll, bool WithUnwind >
-   struct control_impl : pegtl::normal< Rule >
+   // CFam: control family (0 = A, 1 = B); EnableAll: hooks for internal rules too; WithUnwind: defines unwind();
+   // Base: the control the hooks are forwarded to (normal< Rule >, or must_if< Errors >::control< Rule > whose failure() may raise)
+   template< typename Rule, int CFam, bool EnableAll, bool WithUnwind, typename Base = pegtl::normal< Rule >, bool MustIf = false >
+   struct control_impl : Base
    {
-      static constexpr bool enable = EnableAll ? true : pegtl::normal< Rule >::enable;
+      static constexpr bool enable = EnableAll ? true : Base::enable;
 
       template< typename In, typename... S > static void start( const In& in, S&&... /*unused*/ ) noexcept { on_hook( 0, name_of< Rule >, mkpos( in ), CFam ); }
       template< typename In, typename... S > static void success( const In& in, S&&... /*unused*/ ) noexcept { on_hook( 1, name_of< Rule >, mkpos( in ), CFam ); }
-      template< typename In, typename... S > static void failure( const In& in, S&&... /*unused*/ ) noexcept { on_hook( 2, name_of< Rule >, mkpos( in ), CFam ); }
+      template< typename In, typename... S > static void failure( const In& in, S&&... st )
+      {
+         on_hook( 2, name_of< Rule >, mkpos( in ), CFam );
+         if constexpr( MustIf ) Base::failure( in, st... );   // raises when the rule has a must_if message
+      }
 
       template< typename In, typename... S >
       [[noreturn]] static void raise( const In& in, S&&... st )
       {
          on_raise( name_of< Rule >, rid< Rule >::v, mkpos( in ) );
-         pegtl::normal< Rule >::raise( in, st... );
+         Base::raise( in, st... );
       }
 
       template< typename Ambient, typename... S >
@@ -272,40 +277,40 @@ namespace mon
       {
          const auto p = pegtl::internal::get_position( am );
          on_raise_nested( name_of< Rule >, rid< Rule >::v, p.byte, p.line, p.column );
-         pegtl::normal< Rule >::raise_nested( am, st... );
+         Base::raise_nested( am, st... );
       }
 
       template< template< typename... > class Action, typename Inputerator, typename In, typename... S >
       static auto apply( const Inputerator& begin, const In& in, S&&... st )
-         -> decltype( pegtl::normal< Rule >::template apply< Action >( begin, in, st... ) )
+         -> decltype( Base::template apply< Action >( begin, in, st... ) )
       {
          on_hook( 4, name_of< Rule >, mkpos( in ), CFam );
-         return pegtl::normal< Rule >::template apply< Action >( begin, in, st... );
+         return Base::template apply< Action >( begin, in, st... );
       }
 
       template< template< typename... > class Action, typename In, typename... S >
       static auto apply0( const In& in, S&&... st )
-         -> decltype( pegtl::normal< Rule >::template apply0< Action >( in, st... ) )
+         -> decltype( Base::template apply0< Action >( in, st... ) )
       {
          on_hook( 5, name_of< Rule >, mkpos( in ), CFam );
-         return pegtl::normal< Rule >::template apply0< Action >( in, st... );
+         return Base::template apply0< Action >( in, st... );
       }
 
       template< pegtl::apply_mode A, pegtl::rewind_mode M, template< typename... > class Action, template< typename... > class Control, typename In, typename... S >
       [[nodiscard]] static bool match( In& in, S&&... st )
       {
          using RT = typename rule_t_of< Rule >::type;
-         constexpr unsigned flags = ( A == pegtl::apply_mode::action ? F_ACT : 0u ) | ( M == pegtl::rewind_mode::required ? F_REQUIRED : 0u ) | ( is_lookahead< RT > ? F_LOOKAHEAD : 0u ) | ( is_mustlike< RT > ? F_MUSTLIKE : 0u ) | ( control_impl::enable ? F_ENABLED : 0u ) | ( WithUnwind ? F_HAS_UNWIND : 0u ) | ( is_enable_rule< RT > ? F_ENABLE_RULE : 0u ) | ( is_disable_rule< RT > ? F_DISABLE_RULE : 0u ) | ( CFam ? F_CFAM_B : 0u ) | ( is_try< RT > ? F_TRY : 0u ) | ( afam_of< Action >::v ? F_AFAM_B : 0u );
+         constexpr unsigned flags = ( A == pegtl::apply_mode::action ? F_ACT : 0u ) | ( M == pegtl::rewind_mode::required ? F_REQUIRED : 0u ) | ( is_lookahead< RT > ? F_LOOKAHEAD : 0u ) | ( is_mustlike< RT > ? F_MUSTLIKE : 0u ) | ( control_impl::enable ? F_ENABLED : 0u ) | ( WithUnwind ? F_HAS_UNWIND : 0u ) | ( is_enable_rule< RT > ? F_ENABLE_RULE : 0u ) | ( is_disable_rule< RT > ? F_DISABLE_RULE : 0u ) | ( CFam ? F_CFAM_B : 0u ) | ( is_try< RT > ? F_TRY : 0u ) | ( afam_of< Action >::v ? F_AFAM_B : 0u ) | ( MustIf ? F_MUSTIF : 0u );
          on_enter( name_of< Rule >, name_of< RT >, rid< Rule >::v, flags, &in, mk( in ), window_end( in ) );
          leave_guard g{ &in, +[]( const void* p ) noexcept { return mk( *static_cast< const In* >( p ) ); } };
-         const bool r = pegtl::normal< Rule >::template match< A, M, Action, Control >( in, st... );
+         const bool r = Base::template match< A, M, Action, Control >( in, st... );
          g.result = r ? 1 : 0;
          return r;
       }
    };
 
-   template< typename Rule, int CFam, bool EnableAll >
-   struct control_impl_unwind : control_impl< Rule, CFam, EnableAll, true >
+   template< typename Rule, int CFam, bool EnableAll, typename Base = pegtl::normal< Rule >, bool MustIf = false >
+   struct control_impl_unwind : control_impl< Rule, CFam, EnableAll, true, Base, MustIf >
    {
       template< typename In, typename... S > static void unwind( const In& in, S&&... /*unused*/ ) noexcept { on_hook( 3, name_of< Rule >, mk( in ), CFam ); }
    };
